@@ -159,8 +159,35 @@ def drive(test, seed, max_examples, shrink=True, stateful_steps=None):
             if type(e).__name__.startswith("Flaky"):
                 v.msg += "  [observed once; Hypothesis could not reproduce it on replay: the failure depends on process state (e.g. object identity / allocation), not only on the generated case]"
             return v
+        lib = library_frame(e)
+        if lib is not None:
+            # an exception raised INSIDE the library under test, on inputs the check considers valid and
+            # without the check expecting it: that is a failure of the code, not of the harness
+            return Violation({"unreproduced": True, "exception": type(e).__name__, "where": lib, "test": getattr(test, "__name__", str(test))},
+                             "the library raised %s: %s at %s on a generated case the check expects to be handled (no minimal case recorded; "
+                             "re-run the check with the same VERIF_SEED to reproduce)" % (type(e).__name__, e, lib), "library-exception")
         raise HarnessError("unexpected %s in generated test: %s\n%s" % (
             type(e).__name__, e, traceback.format_exc()))
+    return None
+
+
+def library_frame(e):
+    """'file:line' of the innermost traceback frame if it lies in the repository under test, else None"""
+    repo = os.path.realpath(os.environ.get("VERIF_REPO", "/repo")) + os.sep
+    seen = set()
+    while e is not None and id(e) not in seen:
+        seen.add(id(e))
+        tb = e.__traceback__
+        last = None
+        while tb is not None:
+            last = tb
+            tb = tb.tb_next
+        if last is not None:
+            fn = os.path.realpath(last.tb_frame.f_code.co_filename)
+            if fn.startswith(repo):
+                return "%s:%d" % (fn[len(repo):], last.tb_lineno)
+        subs = getattr(e, "exceptions", None)
+        e = subs[0] if subs else (e.__cause__ or e.__context__)
     return None
 
 
@@ -177,6 +204,14 @@ def _shard_entry(args):
     except HarnessError as e:
         return ("harness", str(e))
     except Exception as e:
+        lib = library_frame(e)
+        if lib is not None:
+            st = Stats()
+            st.evaluations = 1
+            st.violations.append({"case": {"unreproduced": True, "shard": [modname, fn], "kwargs": repr(kwargs)[:2000]},
+                                  "msg": "the library raised %s: %s at %s inside %s.%s on a case the check expects to be handled" % (
+                                      type(e).__name__, e, lib, modname, fn), "key": "library-exception"})
+            return ("ok", st.to_json())
         return ("harness", "%s: %s\n%s" % (type(e).__name__, e, traceback.format_exc()))
 
 
